@@ -5,6 +5,9 @@ broadcasts) is open: no unowned next hops / pinged addresses on a segment shared
 routers instead of up to three, and at most two hosts on a LAN that has a routing device (with three, the router's
 forwarded-and-rewritten copies of flooded ARP requests corrupt switch tables and duplicate replies, so plain exchanges
 fail under signatures too generic to list).
+`avoid_nh_host=True` is the exclusion used while C08-host-accepts-foreign-ip is open: no route whose next hop is a host
+(the host's services act on the foreign packets — answering, looping, and through the resulting hairpins corrupting
+switch tables — again under signatures too generic to list).
 
 Construction-based: addresses come from a subnet plan, so every generated scenario is one the loader accepts.
 Address plan: LAN l of routing device i is 10.(i+1).(l+1).0/24 (device .1, hosts .10+) or 10.(i+1).(l+1).16/28
@@ -118,7 +121,7 @@ MUTATIONS = ["drop", "decoy_specific", "decoy_specific", "decoy_general", "metri
 
 
 @st.composite
-def routed_spec(draw, avoid_storm=False, nr=None):
+def routed_spec(draw, avoid_storm=False, avoid_nh_host=False, nr=None):
     b = _B("routed", draw(st.sampled_from([1, 2])))
     nr = nr or draw(st.sampled_from([1, 2, 2, 3, 3]))
     routers = []
@@ -176,7 +179,7 @@ def routed_spec(draw, avoid_storm=False, nr=None):
     muts = []
     if nr > 1:
         for _ in range(draw(st.sampled_from([0, 1, 1, 2, 2, 3]))):
-            m = draw(st.sampled_from(MUTATIONS))
+            m = draw(st.sampled_from([x for x in MUTATIONS if not (avoid_nh_host and x == "nh_host")]))
             i = draw(st.integers(0, nr - 1))
             r = routers[i]
             remote = [lan for lan in lans if lan["r"] != i]
@@ -431,12 +434,17 @@ def ops_for(draw, spec: Dict, avoid_storm: bool = False, max_pairs: int = 30):
 
 
 @st.composite
-def topo_case(draw, family: str, avoid_storm: bool = False):
+def topo_case(draw, family: str, avoid_storm: bool = False, avoid_nh_host: bool = False):
     strat = {"lan": lan_spec, "routed": routed_spec, "dmz": dmz_spec, "wifi": wifi_spec, "loop": loop_spec,
              "ring": ring_spec}[family]
-    spec = draw(strat(avoid_storm=avoid_storm))
+    if family == "routed":
+        spec = draw(strat(avoid_storm=avoid_storm, avoid_nh_host=avoid_nh_host))
+    else:
+        spec = draw(strat(avoid_storm=avoid_storm))
     ops = draw(ops_for(spec, avoid_storm=avoid_storm))
     case = {"kind": "topo", "spec": spec, "ops": ops}
     if avoid_storm:
         case["avoid_storm"] = True
+    if avoid_nh_host and family == "routed":
+        case["avoid_nh_host"] = True
     return case
